@@ -548,6 +548,9 @@ bool Parser::parse_patch_header(Patch& patch, PatchHeaderInfo& header_info, int 
             // We have already parsed the patch header but have found the next patch! This
             // must mean that we have not found any hunk to parse for the patch body.
             if (is_git_patch) {
+                // Everything up until this line belongs to the patch without any body, make
+                // sure that we continue on from the start of the next patch.
+                header_info.lines_till_first_hunk = lines;
                 should_parse_body = false;
                 break;
             }
